@@ -67,9 +67,10 @@ theorem C05_values_never_wrong (hwf : g.WF) (hcf : cf.WF g) (again : List Nat) (
   obtain ⟨h1, h2⟩ := h.stv r i v hl
   rw [← ended_vals_eq_seqRun (graph_fw' hwf) hG i h1, h2]
 
-/-- **No deadlock:** with `deliveryOK` for every collective activation, a reachable state in which some process
-    has not terminated has an enabled transition. -/
-theorem C05_deadlock_free (hwf : g.WF) (hcf : cf.WF g) (hok : deliveryOKAll g cf = true) (again : List Nat)
+/-- **No deadlock:** when every collective activation satisfies `dataOK` (C13's `deliveryOK` restricted to the
+    outputs that carry data; implied by `deliveryOK`), a reachable state in which some process has not terminated has
+    an enabled transition. -/
+theorem C05_deadlock_free (hwf : g.WF) (hcf : cf.WF g) (hok : dataOKAll g cf = true) (again : List Nat)
     (ts : List DTr) (hq : ¬ allTerminate g (drun g cf F again ts)) :
     ∃ t, denabled cf (drun g cf F again ts) t = true :=
   dprogress hwf hcf hok (dinv_run hwf hcf ts) hq
@@ -79,11 +80,12 @@ theorem dist_run_is_run (hwf : g.WF) (hcf : cf.WF g) (again : List Nat) (ts : Li
     ∃ ts', (drun g cf F again ts).core = Dataflow.run g.graph F again ts' :=
   (dinv_run (F := F) (again := again) hwf hcf ts).gen
 
-/-- **C05 (partial form).**  For a well-formed graph whose every collective activation satisfies `deliveryOK`
-    for the configured topology: for every number of ranks, placement function, short limit, payload sizes, AGAIN
-    budget and every maximal run, every process terminates (all tasks done, nothing pending, nothing in flight)
-    and the final values — at the nodes and in every copy held by any rank — are those of `seqRun`. -/
-theorem C05_rank_invariance_partial (hwf : g.WF) (hcf : cf.WF g) (hok : deliveryOKAll g cf = true)
+/-- **C05 (partial form).**  For a well-formed graph whose every collective activation satisfies `dataOK`
+    (`deliveryOK` on the data outputs) for the configured topology: for every number of ranks, placement function,
+    short limit, payload sizes, AGAIN budget and every maximal run, every process terminates (all tasks done, nothing
+    pending, nothing in flight) and the final values — at the nodes and in every copy held by any rank — are those of
+    `seqRun`. -/
+theorem C05_rank_invariance_partial (hwf : g.WF) (hcf : cf.WF g) (hok : dataOKAll g cf = true)
     (again : List Nat) (ts : List DTr) (hmax : ∀ t, denabled cf (drun g cf F again ts) t = false) :
     (∀ i, i < g.n → (drun g cf F again ts).core.val[i]? = (seqRun g.graph F)[i]?) ∧
     allTerminate g (drun g cf F again ts) ∧
@@ -94,6 +96,27 @@ theorem C05_rank_invariance_partial (hwf : g.WF) (hcf : cf.WF g) (hok : delivery
       rw [hmax t] at ht; cases ht
   have hG := (dinv_run (F := F) (again := again) hwf hcf ts).ginv hwf
   exact ⟨quiescent_vals_eq_seqRun (graph_fw g hwf) hG hterm.1, hterm, (C05_values_never_wrong hwf hcf again ts).2⟩
+
+/-- the same with C13's own predicate as hypothesis (`deliveryOK` of every collective activation) -/
+theorem C05_rank_invariance_deliveryOK (hwf : g.WF) (hcf : cf.WF g) (hok : deliveryOKAll g cf = true)
+    (again : List Nat) (ts : List DTr) (hmax : ∀ t, denabled cf (drun g cf F again ts) t = false) :
+    (∀ i, i < g.n → (drun g cf F again ts).core.val[i]? = (seqRun g.graph F)[i]?) ∧
+    allTerminate g (drun g cf F again ts) :=
+  let h := C05_rank_invariance_partial (F := F) hwf hcf (dataOKAll_of_deliveryOKAll hok) again ts hmax
+  ⟨h.1, h.2.1⟩
+
+/-- the star topology always satisfies the hypothesis: C05 holds unconditionally under `runtime_comm_coll_bcast = 0` -/
+theorem C05_star (hwf : g.WF) (hcf : cf.WF g) (hstar : cf.topo = Topo.star)
+    (again : List Nat) (ts : List DTr) (hmax : ∀ t, denabled cf (drun g cf F again ts) t = false) :
+    (∀ i, i < g.n → (drun g cf F again ts).core.val[i]? = (seqRun g.graph F)[i]?) ∧
+    allTerminate g (drun g cf F again ts) := by
+  refine C05_rank_invariance_deliveryOK hwf hcf ?_ again ts hmax
+  unfold deliveryOKAll
+  rw [List.all_eq_true]
+  intro a _
+  apply C13.star_ok
+  unfold cfgOf mkCfg
+  rw [hstar]; rfl
 
 /-- **Two configurations agree** (composition of `Runtime.values_schedule_independent` with the projection):
     two terminated runs of the same graph — different numbers of processes, placements, topologies, short limits,
@@ -117,7 +140,7 @@ def C05_rank_invariance : Prop :=
     (∀ i, i < g.n → (drun g cf F again ts).core.val[i]? = (seqRun g.graph F)[i]?) ∧ allTerminate g (drun g cf F again ts)
 
 /-- DESIGN.md 5.2: task 0 on rank 0; output 0 feeds tasks 1 (rank 1) and 2 (rank 2), output 1 feeds task 2 only -/
-def g52 : DGraph := ⟨3, 2, [(0, 1, 0), (0, 2, 0), (0, 2, 1)]⟩
+def g52 : DGraph := ⟨3, 2, [(0, 1, 0), (0, 2, 0), (0, 2, 1)], []⟩
 def cf52 : Conf := ⟨.chain, 3, fun i => i, 0, fun _ => 1⟩
 def F52 : Nat → List (Option Nat) → Nat := fun i ins => i + 1 + (ins.map (·.getD 0)).sum
 
@@ -199,6 +222,17 @@ def run52star : List DTr :=
   [.start 0, .finish 0, .recvAct 0 ⟨0, 2, [0, 1]⟩ false, .recvAct 0 ⟨0, 1, [0]⟩ false, .recvData 0 ⟨0, 1, [0]⟩,
    .start 1, .recvData 0 ⟨0, 2, [0, 1]⟩, .start 2, .finish 2, .finish 1]
 
+/-- the same program with output 1 a control flow: `deliveryOK` fails, `dataOK` holds, and the chain run terminates
+    (the receiver releases a control dependency from the propagation mask of the header) -/
+def g52ctl : DGraph := { g52 with ctl := [(0, 1)] }
+def run52ctl : List DTr :=
+  [.start 0, .finish 0, .recvAct 0 ⟨0, 1, [0]⟩ false, .recvData 0 ⟨0, 1, [0]⟩,
+   .recvAct 0 ⟨1, 2, [0]⟩ false, .recvData 0 ⟨1, 2, [0]⟩, .start 1, .finish 1, .start 2, .finish 2]
+
+example : deliveryOKAll g52ctl cf52 = false ∧ dataOKAll g52ctl cf52 = true ∧
+    (drun g52ctl cf52 F52 [] run52ctl).core.status = [.ended, .ended, .ended] ∧
+    (drun g52ctl cf52 F52 [] run52ctl).core.pending = [] := by decide
+
 example : g52.WF ∧ deliveryOKAll g52 cf52star = true ∧
     (drun g52 cf52star F52 [] run52star).core.status = [.ended, .ended, .ended] ∧
     (drun g52 cf52star F52 [] run52star).core.pending = [] ∧
@@ -207,7 +241,7 @@ example : g52.WF ∧ deliveryOKAll g52 cf52star = true ∧
 
 /-- differing destination sets that chain delivers (nested sets: the relay consumes both outputs): 4 ranks,
     output 0 → ranks {1, 2}, output 1 → ranks {1, 2, 3}; eager transport allowed (short limit 8 ≥ size 1) -/
-def gN : DGraph := ⟨6, 2, [(0, 1, 0), (0, 2, 0), (0, 3, 1), (0, 4, 1), (0, 5, 1), (1, 5, 0)]⟩
+def gN : DGraph := ⟨6, 2, [(0, 1, 0), (0, 2, 0), (0, 3, 1), (0, 4, 1), (0, 5, 1), (1, 5, 0)], []⟩
 def cfN : Conf := ⟨.chain, 4, fun i => [0, 1, 2, 1, 2, 3].getD i 0, 8, fun _ => 1⟩
 def choicesN : List Nat := [3, 1, 4, 1, 5, 9, 2, 6, 5, 3, 5, 8, 9, 7, 9, 3, 2, 3, 8, 4, 6, 2, 6, 4, 3, 3, 8, 3, 2, 7, 9, 5, 0, 2, 8, 8, 4, 1, 9, 7, 1, 6, 9, 3, 9, 9, 3, 7, 5, 1, 0, 5, 8, 2, 0, 9, 7, 4, 9, 4]
 
